@@ -178,6 +178,18 @@ CHECKS["C17"] = dict(
          "data write) is syntactic and lives in Authz.tla; unknown future routes fall under LoginRequired, Monotone and "
          "RoleSetIsUnion only", design_ref="5 C17")
 
+CHECKS["C18"] = dict(
+    engine="authz", technique=_AUTHZ,
+    text="Finite table property: 22 console data endpoints (both API versions: config list/info/history/download/add/update/"
+         "remove, service/instance list and add, namespace list/update/remove) x 25 privilege shapes (white/black list: all, "
+         "none, {A}, {default}, mixed) x 5 namespace spellings (A, B, default omitted / empty / 'public') executed as a "
+         "logged-in user on the real console app of a single-member Raft node with seeded data in three namespaces; "
+         "NoForeignAccess (nothing of a forbidden namespace in the answer, state digest unchanged) and AllowedWorks evaluated "
+         "on every observation.",
+    note="endpoint table is hand-written and cross-checked against the route inventory; data routes not in the table are "
+         "listed in the evidence (MCP, some v1 naming writes); an empty answer instead of a refusal is accepted (nothing "
+         "leaks, nothing changes); privilege groups with enabled=true only", design_ref="5 C18")
+
 NOT_YET = {}
 
 
